@@ -22,6 +22,7 @@
 
    This module has no variables: it is EXTENDed by HttpReq (model) and Trace_HttpReq (trace spec). *)
 EXTENDS Integers, Sequences, FiniteSets, TLC
+LOCAL INSTANCE SequencesExt          \* FoldLeft only (Java-implemented fold)
 
 SP == " "      HT == "%09"    CR == "%0D"    LF == "%0A"    NUL == "%00"
 COLON == ":"   QM == "?"      COMMA == ","   SEMI == ";"    EQS == "="     DOT == "."    SLASH == "/"
@@ -54,10 +55,13 @@ RECURSIVE Dec(_)
 Dec(n) == IF n < 10 THEN <<DG[n + 1]>> ELSE Dec(n \div 10) \o <<DG[(n % 10) + 1]>>
 
 (***************************************************************************)
-(* Sequence helpers (index based: no copying while scanning)               *)
+(* Sequence helpers.  Scanning is written with set comprehensions rather than recursion on    *)
+(* the index: TLC's cost of a recursion of depth n is quadratic in n (context chain), and    *)
+(* the trace direction scans heads of 16 000 symbols.                                        *)
 (***************************************************************************)
-RECURSIVE IndexFrom(_, _, _)
-IndexFrom(s, i, c) == IF i > Len(s) THEN 0 ELSE IF s[i] = c THEN i ELSE IndexFrom(s, i + 1, c)
+MinOf(S) == CHOOSE x \in S : \A y \in S : x <= y
+\* smallest j >= i with s[j] = c, 0 if there is none
+IndexFrom(s, i, c) == LET S == { j \in i..Len(s) : s[j] = c } IN IF S = {} THEN 0 ELSE MinOf(S)
 
 RECURSIVE SplitFrom(_, _, _)
 SplitFrom(s, i, c) == LET j == IndexFrom(s, i, c)
@@ -77,11 +81,8 @@ Concat(ss) == IF ss = <<>> THEN <<>> ELSE Head(ss) \o Concat(Tail(ss))
 RECURSIVE Join(_, _)
 Join(ss, sep) == IF ss = <<>> THEN <<>> ELSE IF Len(ss) = 1 THEN ss[1] ELSE ss[1] \o sep \o Join(Tail(ss), sep)
 
-RECURSIVE Flat(_, _)
-Flat(s, i) == IF i > Len(s) THEN "" ELSE s[i] \o Flat(s, i + 1)
-Str(s) == Flat(s, 1)                   \* percent-encoded text of a symbol sequence
-
-MinOf(S) == CHOOSE x \in S : \A y \in S : x <= y
+\* percent-encoded text of a symbol sequence (TLC concatenates strings with \o)
+Str(s) == FoldLeft(LAMBDA acc, x : acc \o x, "", s)
 
 (***************************************************************************)
 (* Addresses.  An X-Forwarded-For entry counts when, after removing OWS    *)
